@@ -1,6 +1,5 @@
 package main
 
-type cipherObj struct{}
 type held struct{}
 
 func selftestMain(args []string) int   { return 0 }
